@@ -2081,6 +2081,16 @@ class Exec:
                     self.oblige('safe.index', st, self.c.Forall(0, idx.shape[0], lambda i: z3.And(
                         idx.elem((i,)) >= 0, idx.elem((i,)) < to_int(a.shape[1]))), node)
                 return st.alloc(self.c, Arr((a.shape[0], idx.shape[0]), lambda ix, a=a, idx=idx: a.elem((ix[0], idx.elem((ix[1],)))), a.kind))
+        if a.ndim >= 2 and len(plan) == a.ndim and plan[-1][0] == 'f' and all(
+                p[0] == 's' and conc_int(p[1]) == 0 and p[3] == 1 and _same(p[2], a.shape[k]) for k, p in enumerate(plan[:-1])):
+            # a[:, :, idx]: whole leading axes, an integer index array on the last axis (any rank)
+            idx = st.get(plan[-1][1])
+            if isinstance(idx, Arr) and idx.kind == 'int' and idx.ndim == 1:
+                if 'index' in self.safety:
+                    self.oblige('safe.index', st, self.c.Forall(0, idx.shape[0], lambda i: z3.And(
+                        idx.elem((i,)) >= 0, idx.elem((i,)) < to_int(a.shape[-1]))), node)
+                return st.alloc(self.c, Arr(tuple(a.shape[:-1]) + (idx.shape[0],),
+                                            lambda ix, a=a, idx=idx: a.elem(tuple(ix[:-1]) + (idx.elem((ix[-1],)),)), a.kind))
         raise Unsupported('fancy / boolean indexing at line %d' % getattr(node, 'lineno', 0))
 
     def store(self, base, sl, v, st, node):
